@@ -48,7 +48,7 @@ Section P1.
     i1_SP : forall S, In S seen ->
               In S pend /\ exists b ns sh, S = SubRecipe b ns sh /\ is_subrecipe b = false;
     i1_NL : forall S, In S seen -> forall k, (k < length (names_of S))%nat ->
-              exists e, In e t /\ e_key e = norm (nth k (names_of S) []) /\ e_sub e = S;
+              exists e, In e t /\ e_key e = norm (nth k (names_of S) []) /\ e_idx e = k /\ e_sub e = S;
     i1_V : forall x, In x pend -> constructed x = true /\ refs_in seen x;
     i1_U : forall e, In e t -> entry_uses pend e }.
 
@@ -82,4 +82,514 @@ Section P1.
     intros Hk Hs Hi (b & ns & sh & H1 & H2 & H3). exists b, ns, sh.
     rewrite Hk, Hs, Hi. auto.
   Qed.
+
+  Lemma inv1_add_ref seen pend t k o a blk :
+    Inv1 seen pend t -> lookup k t = Some o ->
+    Inv1 seen (Reference (e_sub o) (e_idx o) a :: pend)
+         (add_ref k (Reference (e_sub o) (e_idx o) a, blk) t).
+  Proof.
+    intros I Hl. set (n := Reference (e_sub o) (e_idx o) a).
+    destruct (lookup_split k (n, blk) t o Hl) as (t1 & t2 & Ht & Hko & Hn1 & Ha).
+    rewrite Ha. clear Ha.
+    assert (Ho : In o t) by (rewrite Ht; apply in_elt).
+    assert (HoS : In (e_sub o) seen) by (apply (i1_T _ _ _ I), Ho).
+    assert (HoP : In (e_sub o) pend) by (apply (i1_SP _ _ _ I), HoS).
+    assert (K' : keys_distinct (t1 ++ with_ref o (n, blk) :: t2)).
+    { unfold keys_distinct. replace (map e_key (t1 ++ with_ref o (n, blk) :: t2)) with (map e_key t).
+      + apply (i1_K _ _ _ I).
+      + rewrite Ht, !map_app. reflexivity. }
+    assert (KN' : forall e', In e' (t1 ++ with_ref o (n, blk) :: t2) -> entry_named lower e').
+    { intros e' H. destruct (in_with_ref _ _ _ _ _ H) as (e & He & Hk & Hs & Hi & _).
+      rewrite <- Ht in He. eapply entry_named_ext; eauto. apply (i1_KN _ _ _ I), He. }
+    split; [exact K' | exact KN' | | | | | |].
+    - intros e' H. destruct (in_with_ref _ _ _ _ _ H) as (e & He & Hk & Hs & Hi & Hc).
+      rewrite <- Ht in He. pose proof (i1_C _ _ _ I e He) as HC.
+      destruct Hc as [->|[-> ->]]; [exact HC|].
+      intros x b Hx. simpl in Hx |- *. apply in_app_iff in Hx. destruct Hx as [Hx|[Hx|[]]].
+      + eapply HC; eauto.
+      + injection Hx as Hx1 Hx2. exists a. rewrite <- Hx1. reflexivity.
+    - intros e' H. destruct (in_with_ref _ _ _ _ _ H) as (e & He & Hk & Hs & Hi & _).
+      rewrite <- Ht in He. rewrite Hs. apply (i1_T _ _ _ I), He.
+    - intros S HS. destruct (i1_SP _ _ _ I S HS) as [H1 H2]. split; [right; exact H1 | exact H2].
+    - intros S HS k0 Hk0. destruct (i1_NL _ _ _ I S HS k0 Hk0) as (e & He & Hk & Hix & Hs).
+      rewrite Ht in He. destruct (in_with_ref_fwd t1 o t2 (n, blk) e He) as (e' & He' & Hk' & Hs' & Hi').
+      exists e'. split; [exact He'|]. repeat split; congruence.
+    - intros x [<-|Hx]; [|apply (i1_V _ _ _ I), Hx].
+      destruct (i1_V _ _ _ I _ HoP) as [Hc Hr].
+      destruct (i1_KN _ _ _ I o Ho) as (b & ns & sh & Hs & Hi & _).
+      split.
+      + apply constructed_unfold. split; [|exact Hc]. unfold n. rewrite Hs. simpl.
+        apply Nat.ltb_lt in Hi. now rewrite Hi.
+      + simpl. auto.
+    - intros e' H. destruct (in_with_ref _ _ _ _ _ H) as (e & He & Hk & Hs & Hi & Hc).
+      rewrite <- Ht in He. pose proof (i1_U _ _ _ I e He) as HU.
+      assert (Hmono : forall y, In y (map fst (e_refs e)) -> In y (map fst (e_refs e'))).
+      { destruct Hc as [->|[-> ->]]; [auto|]. simpl. intros y Hy. rewrite map_app, in_app_iff. auto. }
+      intros x a0 Hx Hin. rewrite Hs, Hi in *.
+      assert (Hold : forall x0, In x0 pend -> inside (Reference (e_sub e) (e_idx e) a0) x0 ->
+                       In (Reference (e_sub e) (e_idx e) a0) (map fst (e_refs e'))).
+      { intros x0 Hx0 Hi0. apply Hmono. eapply HU; eauto. }
+      destruct Hx as [<-|Hx]; [|eauto].
+      inversion Hin as [| |sr i' a' Hin'|].
+      + (* the new reference itself: [e'] is the updated entry *)
+        assert (E : e' = with_ref o (n, blk)).
+        { eapply keys_distinct_In; [exact K' | exact H | apply in_elt |].
+          rewrite (entry_named_key lower e' (with_ref o (n, blk))).
+          - apply svs_eqb_refl.
+          - apply KN', H.
+          - simpl. congruence.
+          - simpl. congruence.
+          - apply KN', in_elt. }
+        rewrite E. simpl. rewrite map_app, in_app_iff. right. left. simpl. unfold n. congruence.
+      + eauto.
+  Qed.
+
+  (** Adding a valid tree whose references are all recorded. *)
+  Lemma inv1_pend_add seen pend t x :
+    Inv1 seen pend t -> constructed x = true -> refs_in seen x ->
+    (forall e, In e t -> entry_uses [x] e) ->
+    Inv1 seen (x :: pend) t.
+  Proof.
+    intros I Hc Hr Hu. split; try apply I.
+    - intros S HS. destruct (i1_SP _ _ _ I S HS) as [H1 H2]. split; [right; exact H1 | exact H2].
+    - intros y [<-|Hy]; [auto | apply (i1_V _ _ _ I), Hy].
+    - intros e He y a [<-|Hy] Hin.
+      + apply (Hu e He x a); [left; reflexivity | exact Hin].
+      + eapply (i1_U _ _ _ I); eauto.
+  Qed.
+
+  Lemma inv1_add_step seen pend t d ns :
+    Inv1 seen pend t -> (forall y, In y ns -> In y pend /\ can_be_child y = true) ->
+    Inv1 seen (Step d ns :: pend) t.
+  Proof.
+    intros I Hns. apply inv1_pend_add; [exact I| | |].
+    - apply constructed_unfold. split.
+      + simpl. replace (forallb can_be_child ns) with true; [reflexivity|].
+        symmetry. apply forallb_forall. intros y Hy. apply Hns, Hy.
+      + apply Forall_forall. intros y Hy. apply (i1_V _ _ _ I). apply Hns, Hy.
+    - apply refs_in_Step. apply Forall_forall. intros y Hy. apply (i1_V _ _ _ I). apply Hns, Hy.
+    - intros e He x a [<-|[]] Hin. inversion Hin as [|d' ins' y Hy Hi| |]; subst.
+      eapply (i1_U _ _ _ I); [exact He | apply Hns, Hy | exact Hi].
+  Qed.
+
+  Lemma inv1_add_ingredient seen pend t d q :
+    Inv1 seen pend t -> Inv1 seen (Ingredient d q :: pend) t.
+  Proof.
+    intros I. apply inv1_pend_add; [exact I|reflexivity|exact Logic.I|].
+    intros e He x a [<-|[]] Hin. inversion Hin.
+  Qed.
+
+  Lemma compile_expr_inv1 blk seen : forall e pend t n t',
+    Inv1 seen pend t -> compile_expr lower blk e t = ROk n t' ->
+    exists pend', incl pend pend' /\ In n pend' /\ Inv1 seen pend' t' /\
+                  can_be_child n = true /\ is_subrecipe n = false.
+  Proof.
+    induction e as [name amt off|name ins IH] using aexpr_ind'; intros pend t n t' I H.
+    - simpl in H. destruct (lookup (normalise_output_name lower name) t) as [o|] eqn:El.
+      + inversion H; subst. eexists. split; [apply incl_tl, incl_refl|].
+        split; [left; reflexivity|]. split; [apply inv1_add_ref; assumption|]. split; reflexivity.
+      + destruct amt as [[q|p]|]; inversion H; subst;
+          (eexists; split; [apply incl_tl, incl_refl|]; split; [left; reflexivity|];
+           split; [apply inv1_add_ingredient; assumption|]; split; reflexivity).
+    - rewrite compile_expr_AStep in H.
+      destruct (compile_list lower blk ins t) as [ns t1|k o] eqn:E; [|discriminate].
+      inversion H; subst; clear H.
+      assert (L : exists pend', incl pend pend' /\
+                    (forall y, In y ns -> In y pend' /\ can_be_child y = true) /\ Inv1 seen pend' t').
+      { revert pend t ns t' I E. induction IH as [|x l Hx Hl IHl]; intros pend t ns t' I E; simpl in E.
+        - inversion E; subst. exists pend. split; [apply incl_refl|]. split; [intros ? []|exact I].
+        - destruct (compile_expr lower blk x t) as [n1 t1|k o] eqn:E1; [|discriminate].
+          destruct (compile_list lower blk l t1) as [ns2 t2|k o] eqn:E2; [|discriminate].
+          inversion E; subst.
+          destruct (Hx _ _ _ _ I E1) as (p1 & Hi1 & Hn1 & I1 & Hc1 & _).
+          destruct (IHl _ _ _ _ I1 E2) as (p2 & Hi2 & Hn2 & I2).
+          exists p2. split; [eapply incl_tran; eauto|]. split; [|exact I2].
+          intros y [<-|Hy]; [split; auto | auto]. }
+      destruct L as (p1 & Hi1 & Hns & I1).
+      exists (Step name ns :: p1). split; [apply incl_tl, Hi1|]. split; [left; reflexivity|].
+      split; [apply inv1_add_step; assumption|]. split; reflexivity.
+  Qed.
+
+  (** An inferred name was looked up and not found (so the [assert] holds). *)
+  Lemma compile_expr_infer blk : forall e t n t' nm,
+    compile_expr lower blk e t = ROk n t' -> infer_output_name n = Some nm ->
+    lookup (norm nm) t' = None.
+  Proof.
+    induction e as [name amt off|name ins IH] using aexpr_ind'; intros t n t' nm H Hi.
+    - simpl in H. destruct (lookup (normalise_output_name lower name) t) as [o|] eqn:El.
+      + inversion H; subst. discriminate.
+      + destruct amt as [[q|p]|]; inversion H; subst; simpl in Hi; inversion Hi; subst; exact El.
+    - rewrite compile_expr_AStep in H.
+      destruct (compile_list lower blk ins t) as [ns t1|k o] eqn:E; [|discriminate].
+      inversion H; subst; clear H. simpl in Hi.
+      destruct ns as [|x [|? ?]]; try discriminate.
+      destruct ins as [|e1 rest]; simpl in E; [discriminate|].
+      destruct (compile_expr lower blk e1 t) as [n1 t1|k o] eqn:E1; [|discriminate].
+      destruct (compile_list lower blk rest t1) as [ns2 t2|k o] eqn:E2; [|discriminate].
+      inversion E; subst. destruct rest as [|e2 rest]; simpl in E2.
+      + inversion E2; subst. inversion IH; subst. eauto.
+      + destruct (compile_expr lower blk e2 t1); [|discriminate].
+        destruct (compile_list lower blk rest t0); discriminate.
+  Qed.
+
+  (** ** Registering the outputs of a statement *)
+  Fixpoint mk_entries (blk : nat) (sub : node) (unwrap : bool) (idx : nat) (names : list svs) : table :=
+    match names with
+    | [] => []
+    | nm :: rest => mkEntry (norm nm) blk sub idx [] unwrap :: mk_entries blk sub unwrap (S idx) rest
+    end.
+
+  Lemma register_spec blk sub unwrap : forall names offs idx t t',
+    register lower blk sub unwrap names offs idx t = inl (ROk tt t') ->
+    t' = t ++ mk_entries blk sub unwrap idx names /\
+    (forall e nm, In e t -> In nm names -> svs_eqb (e_key e) (norm nm) = false) /\
+    (keys_distinct t -> keys_distinct t').
+  Proof.
+    induction names as [|nm names IH]; intros offs idx t t' H; simpl in H.
+    - inversion H; subst. simpl. rewrite app_nil_r. split; [reflexivity|]. split; [intros ? ? _ []|auto].
+    - destruct (lookup (normalise_output_name lower nm) t) eqn:El.
+      + destruct offs as [|[o|] offs']; discriminate.
+      + destruct (IH _ _ _ _ H) as (-> & Hf & Hk). pose proof (lookup_none _ _ El) as Hn.
+        split; [simpl; rewrite <- app_assoc; reflexivity|]. split.
+        * intros e nm' He [<-|Hnm]; [auto|]. apply Hf; [apply in_app_iff; auto | exact Hnm].
+        * intro K. apply Hk. unfold keys_distinct. rewrite map_app. simpl.
+          apply kd_app_one; [exact K|]. intros k' Hk'. apply in_map_iff in Hk'.
+          destruct Hk' as (e & <- & He). auto.
+  Qed.
+
+  Lemma in_mk_entries blk sub unwrap : forall names idx e,
+    In e (mk_entries blk sub unwrap idx names) ->
+    exists k, (k < length names)%nat /\ e = mkEntry (norm (nth k names [])) blk sub (idx + k) [] unwrap.
+  Proof.
+    induction names as [|nm names IH]; simpl; intros idx e H; [contradiction|].
+    destruct H as [<-|H].
+    - exists 0%nat. split; [lia|]. now rewrite Nat.add_0_r.
+    - destruct (IH _ _ H) as (k & Hk & ->). exists (S k). split; [lia|].
+      simpl. now rewrite Nat.add_succ_r.
+  Qed.
+
+  Lemma mk_entries_in blk sub unwrap : forall names idx k, (k < length names)%nat ->
+    In (mkEntry (norm (nth k names [])) blk sub (idx + k) [] unwrap) (mk_entries blk sub unwrap idx names).
+  Proof.
+    induction names as [|nm names IH]; simpl; intros idx k Hk; [lia|].
+    destruct k as [|k].
+    - left. now rewrite Nat.add_0_r.
+    - right. rewrite Nat.add_succ_r. apply (IH (S idx) k). lia.
+  Qed.
+
+  Lemma refs_in_incl s s' x : incl s s' -> refs_in s x -> refs_in s' x.
+  Proof.
+    intros Hi H. apply refs_in_inside. intros sr i a Hin. apply Hi.
+    revert sr i a Hin. now apply refs_in_inside.
+  Qed.
+
+  Lemma inside_ref_not_self sr i a : ~ inside (Reference sr i a) sr.
+  Proof. intro H. apply inside_size in H. simpl in H. lia. Qed.
+
+  Lemma inv1_register seen pend t blk tree names sh unwrap offs t' :
+    Inv1 seen pend t -> In tree pend -> can_be_child tree = true -> is_subrecipe tree = false ->
+    names <> [] ->
+    register lower blk (SubRecipe tree names sh) unwrap names offs 0 t = inl (ROk tt t') ->
+    Inv1 (SubRecipe tree names sh :: seen) (SubRecipe tree names sh :: pend) t'.
+  Proof.
+    intros I Htree Hcc Hns Hne H. set (sub := SubRecipe tree names sh) in *.
+    destruct (register_spec _ _ _ _ _ _ _ _ H) as (-> & Hfresh & HK).
+    assert (Hnew : forall e, In e (mk_entries blk sub unwrap 0 names) ->
+              exists k, (k < length names)%nat /\ e = mkEntry (norm (nth k names [])) blk sub k [] unwrap).
+    { intros e He. apply in_mk_entries in He. exact He. }
+    assert (Hnotseen : ~ In sub seen).
+    { intro Hs. destruct (i1_NL _ _ _ I sub Hs 0%nat) as (e & He & Hk & _).
+      { simpl. destruct names; [congruence | simpl; lia]. }
+      assert (In (nth 0 names []) names) by (apply nth_In; destruct names; [congruence | simpl; lia]).
+      pose proof (Hfresh e _ He H0) as Hf. simpl in Hk. rewrite <- Hk, svs_eqb_refl in Hf. discriminate. }
+    destruct (i1_V _ _ _ I _ Htree) as [Hct Hrt].
+    split.
+    - apply HK, I.
+    - intros e He. apply in_app_iff in He. destruct He as [He|He]; [apply (i1_KN _ _ _ I), He|].
+      destruct (Hnew e He) as (k & Hk & ->). exists tree, names, sh. simpl. auto.
+    - intros e He. apply in_app_iff in He. destruct He as [He|He]; [apply (i1_C _ _ _ I), He|].
+      destruct (Hnew e He) as (k & Hk & ->). intros x b [].
+    - intros e He. apply in_app_iff in He. destruct He as [He|He]; [right; apply (i1_T _ _ _ I), He|].
+      destruct (Hnew e He) as (k & Hk & ->). left. reflexivity.
+    - intros S [<-|HS].
+      + split; [left; reflexivity|]. exists tree, names, sh. auto.
+      + destruct (i1_SP _ _ _ I S HS) as [H1 H2]. split; [right; exact H1 | exact H2].
+    - intros S [<-|HS] k Hk.
+      + simpl in Hk. eexists. split; [apply in_app_iff; right; apply (mk_entries_in blk sub unwrap names 0 k Hk)|].
+        simpl. auto.
+      + destruct (i1_NL _ _ _ I S HS k Hk) as (e & He & Hk' & Hix & Hs). exists e.
+        split; [apply in_app_iff; auto | auto].
+    - intros x [<-|Hx].
+      + split.
+        * apply constructed_unfold. split; [|exact Hct]. simpl. rewrite Hcc. simpl.
+          destruct names; [congruence | reflexivity].
+        * simpl. eapply refs_in_incl; [|exact Hrt]. apply incl_tl, incl_refl.
+      + destruct (i1_V _ _ _ I x Hx) as [H1 H2]. split; [exact H1|].
+        eapply refs_in_incl; [|exact H2]. apply incl_tl, incl_refl.
+    - intros e He. apply in_app_iff in He. destruct He as [He|He].
+      + intros x a [<-|Hx] Hin.
+        * inversion Hin as [| | |b' ns' sh' Hin']; subst.
+          eapply (i1_U _ _ _ I); eauto.
+        * eapply (i1_U _ _ _ I); eauto.
+      + destruct (Hnew e He) as (k & Hk & ->). simpl. intros x a [<-|Hx] Hin.
+        * exfalso. eapply inside_ref_not_self; eauto.
+        * exfalso. apply Hnotseen. destruct (i1_V _ _ _ I x Hx) as [_ Hr].
+          rewrite refs_in_inside in Hr. eapply Hr; eauto.
+  Qed.
+
+  Definition seen_after (seen : list node) (tree : node) : list node :=
+    if is_subrecipe tree then tree :: seen else seen.
+
+  Lemma compile_stmt_inv1 blk st seen pend t tree t' :
+    Inv1 seen pend t -> compile_stmt lower blk st t = SOk tree t' ->
+    exists pend', incl pend pend' /\ In tree pend' /\ Inv1 (seen_after seen tree) pend' t' /\
+                  constructed tree = true /\ refs_in seen tree.
+  Proof.
+    intros I H. unfold compile_stmt in H.
+    destruct (compile_expr lower blk (st_expr st) t) as [tr t1|k o] eqn:E; [|discriminate].
+    destruct (compile_expr_inv1 blk seen _ _ _ _ _ I E) as (p1 & Hi1 & Hn1 & I1 & Hcc & Hns).
+    destruct (i1_V _ _ _ I1 _ Hn1) as [Hct Hrt].
+    assert (R : forall names sh unwrap offs t2, names <> [] ->
+              register lower blk (SubRecipe tr names sh) unwrap names offs 0 t1 = inl (ROk tt t2) ->
+              exists pend', incl pend pend' /\ In (SubRecipe tr names sh) pend' /\
+                Inv1 (seen_after seen (SubRecipe tr names sh)) pend' t2 /\
+                constructed (SubRecipe tr names sh) = true /\ refs_in seen (SubRecipe tr names sh)).
+    { intros names sh unwrap offs t2 Hne Hr.
+      pose proof (inv1_register _ _ _ _ _ _ _ _ _ _ I1 Hn1 Hcc Hns Hne Hr) as I2.
+      eexists. split; [apply incl_tl, Hi1|]. split; [left; reflexivity|]. split; [exact I2|].
+      split; [|exact Hrt]. apply (i1_V _ _ _ I2). left. reflexivity. }
+    destruct (map fst (st_outs st)) as [|x xs] eqn:Em.
+    - destruct (infer_output_name tr) as [nm|] eqn:Ei.
+      + cbv iota beta in H.
+        match type of H with context [register ?a ?b ?c ?d ?e ?f ?g ?h] =>
+          destruct (register a b c d e f g h) as [[[] t2|k o]|c0] eqn:Er end; try discriminate.
+        inversion H; subst. eapply R; [|exact Er]. discriminate.
+      + inversion H; subst. exists p1. unfold seen_after. rewrite Hns. auto.
+    - cbv iota beta in H.
+      match type of H with context [register ?a ?b ?c ?d ?e ?f ?g ?h] =>
+        destruct (register a b c d e f g h) as [[[] t2|k o]|c0] eqn:Er end; try discriminate.
+      inversion H; subst. eapply R; [|exact Er]. discriminate.
+  Qed.
+
+  (** ** The [assert] of pass 1 never fails *)
+  Lemma register_explicit_no_crash blk sub unwrap c : forall (outs : list (svs * N)) idx t,
+    register lower blk sub unwrap (map fst outs) (map (fun p => Some (snd p)) outs) idx t <> inr c.
+  Proof.
+    induction outs as [|[nm off] outs IH]; intros idx t; simpl; [discriminate|].
+    destruct (lookup (normalise_output_name lower nm) t); [discriminate|]. apply IH.
+  Qed.
+
+  Lemma compile_stmt_no_crash blk st t c : compile_stmt lower blk st t <> SCrash c.
+  Proof.
+    unfold compile_stmt.
+    destruct (compile_expr lower blk (st_expr st) t) as [tr t1|k o] eqn:E; [|discriminate].
+    destruct (st_outs st) as [|[x off] xs] eqn:Em.
+    - simpl. destruct (infer_output_name tr) as [nm|] eqn:Ei; [|discriminate].
+      cbv iota beta. simpl. rewrite (compile_expr_infer _ _ _ _ _ _ E Ei). discriminate.
+    - cbv iota beta.
+      pose proof (register_explicit_no_crash blk
+        (SubRecipe tr (map fst ((x, off) :: xs)) (negb false)) (negb (st_named st)) c ((x, off) :: xs) 0%nat t1) as Hn.
+      cbn [map fst snd] in Hn |- *.
+      match goal with |- context [register ?a ?b ?c ?d ?e ?f ?g ?h] =>
+        destruct (register a b c d e f g h) as [[[] t2|k o]|c0] end; try discriminate.
+      intro Hc. apply Hn. congruence.
+  Qed.
+
+  Lemma compile_block_no_crash blk c : forall sts t, compile_block lower blk sts t <> BCrash c.
+  Proof.
+    induction sts as [|st sts IH]; intros t; simpl; [discriminate|].
+    destruct (compile_stmt lower blk st t) as [tr t1|k o|c0] eqn:E; try discriminate.
+    - specialize (IH t1). destruct (compile_block lower blk sts t1); try discriminate. exact IH.
+    - exfalso. eapply compile_stmt_no_crash; eauto.
+  Qed.
+
+  Lemma pass1_from_no_crash c : forall p blk t, pass1_from lower blk p t <> P1Crash c.
+  Proof.
+    induction p as [|b p IH]; intros blk t; simpl; [discriminate|].
+    destruct (compile_block lower blk b t) as [trs t1|k o|c0] eqn:E; try discriminate.
+    - specialize (IH (S blk) t1). destruct (pass1_from lower (S blk) p t1); try discriminate. exact IH.
+    - exfalso. eapply compile_block_no_crash; eauto.
+  Qed.
+
+  (** ** Where the table's sub recipes live: the defining block *)
+  Definition from_old (t : table) (e : entry) : Prop :=
+    exists e0, In e0 t /\ e_sub e = e_sub e0 /\ e_def_block e = e_def_block e0.
+
+  Lemma from_old_refl t e : In e t -> from_old t e.
+  Proof. intro H. exists e. auto. Qed.
+
+  Lemma from_old_trans t t1 e : (forall e1, In e1 t1 -> from_old t e1) -> from_old t1 e -> from_old t e.
+  Proof.
+    intros H (e1 & H1 & Hs & Hb). destruct (H e1 H1) as (e0 & H0 & Hs0 & Hb0).
+    exists e0. split; [exact H0|]. split; congruence.
+  Qed.
+
+  Lemma add_ref_origin k r : forall t e, In e (add_ref k r t) -> from_old t e.
+  Proof.
+    induction t as [|e0 t IH]; simpl; intros e H; [contradiction|].
+    destruct (svs_eqb (e_key e0) k).
+    - destruct H as [<-|H]; [exists e0; simpl; auto|]. exists e. simpl; auto.
+    - destruct H as [<-|H]; [exists e0; simpl; auto|].
+      destruct (IH e H) as (e1 & H1 & Hs & Hb). exists e1. simpl; auto.
+  Qed.
+
+  Lemma compile_expr_origin blk : forall e t n t',
+    compile_expr lower blk e t = ROk n t' -> forall e', In e' t' -> from_old t e'.
+  Proof.
+    induction e as [name amt off|name ins IH] using aexpr_ind'; intros t n t' H.
+    - simpl in H. destruct (lookup (normalise_output_name lower name) t) as [o|] eqn:El.
+      + inversion H; subst. apply add_ref_origin.
+      + destruct amt as [[q|p]|]; inversion H; subst; apply from_old_refl.
+    - rewrite compile_expr_AStep in H.
+      destruct (compile_list lower blk ins t) as [ns t1|k o] eqn:E; [|discriminate].
+      inversion H; subst; clear H.
+      revert t ns t' E. induction IH as [|x l Hx Hl IHl]; intros t ns t' E; simpl in E.
+      + inversion E; subst. apply from_old_refl.
+      + destruct (compile_expr lower blk x t) as [n1 t1|k o] eqn:E1; [|discriminate].
+        destruct (compile_list lower blk l t1) as [ns2 t2|k o] eqn:E2; [|discriminate].
+        inversion E; subst. intros e' He'. eapply from_old_trans; [eapply Hx; eauto|].
+        eapply IHl; eauto.
+  Qed.
+
+  Lemma compile_stmt_origin blk st t tree t' :
+    compile_stmt lower blk st t = SOk tree t' ->
+    forall e, In e t' -> from_old t e \/ (e_def_block e = blk /\ e_sub e = tree).
+  Proof.
+    intros H. unfold compile_stmt in H.
+    destruct (compile_expr lower blk (st_expr st) t) as [tr t1|k o] eqn:E; [|discriminate].
+    pose proof (compile_expr_origin _ _ _ _ _ E) as Ho.
+    assert (R : forall sub unwrap names offs t2,
+              register lower blk sub unwrap names offs 0 t1 = inl (ROk tt t2) ->
+              forall e, In e t2 -> from_old t e \/ (e_def_block e = blk /\ e_sub e = sub)).
+    { intros sub unwrap names offs t2 Hr e He.
+      destruct (register_spec _ _ _ _ _ _ _ _ Hr) as (-> & _ & _).
+      apply in_app_iff in He. destruct He as [He|He]; [left; auto|].
+      apply in_mk_entries in He. destruct He as (k & _ & ->). right. simpl. auto. }
+    destruct (map fst (st_outs st)) as [|x xs] eqn:Em.
+    - destruct (infer_output_name tr) as [nm|] eqn:Ei.
+      + cbv iota beta in H.
+        match type of H with context [register ?a ?b ?c ?d ?e ?f ?g ?h] =>
+          destruct (register a b c d e f g h) as [[[] t2|k o]|c0] eqn:Er end; try discriminate.
+        inversion H; subst. eapply R; eauto.
+      + inversion H; subst. intros e He. left. auto.
+    - cbv iota beta in H.
+      match type of H with context [register ?a ?b ?c ?d ?e ?f ?g ?h] =>
+        destruct (register a b c d e f g h) as [[[] t2|k o]|c0] eqn:Er end; try discriminate.
+      inversion H; subst. eapply R; eauto.
+  Qed.
+
+  Lemma compile_block_inv1 blk : forall sts seen pend t trees t',
+    Inv1 seen pend t -> compile_block lower blk sts t = BOk trees t' ->
+    exists pend', incl pend pend' /\ (forall x, In x trees -> In x pend') /\
+      Inv1 (fold_left seen_after trees seen) pend' t' /\ block_valid seen trees /\
+      (forall e, In e t' -> from_old t e \/ (e_def_block e = blk /\ In (e_sub e) trees)).
+  Proof.
+    induction sts as [|st sts IH]; intros seen pend t trees t' I H; simpl in H.
+    - inversion H; subst. exists pend. simpl.
+      split; [apply incl_refl|]. split; [intros ? []|]. split; [exact I|]. split; [exact Logic.I|].
+      intros e He. left. now apply from_old_refl.
+    - destruct (compile_stmt lower blk st t) as [tr t1|k o|c0] eqn:E; try discriminate.
+      destruct (compile_block lower blk sts t1) as [trs t2|k o|c0] eqn:E2; try discriminate.
+      inversion H; subst.
+      destruct (compile_stmt_inv1 _ _ _ _ _ _ _ I E) as (p1 & Hi1 & Hn1 & I1 & Hc & Hr).
+      destruct (IH _ _ _ _ _ I1 E2) as (p2 & Hi2 & Hn2 & I2 & Hbv & Ho2).
+      exists p2. split; [eapply incl_tran; eauto|]. split; [|split; [exact I2|split]].
+      + intros x [<-|Hx]; auto.
+      + simpl. auto.
+      + intros e He. destruct (Ho2 e He) as [Hold|[Hb Hin]].
+        * destruct Hold as (e1 & He1 & Hs & Hb).
+          destruct (compile_stmt_origin _ _ _ _ _ E e1 He1) as [(e0 & He0 & Hs0 & Hb0)|[Hb1 Hs1]].
+          -- left. exists e0. split; [exact He0|]. split; congruence.
+          -- right. split; [congruence|]. left. congruence.
+        * right. split; [exact Hb | right; exact Hin].
+  Qed.
+
+  Lemma fold_seen_after_set trees : forall seen,
+    same_set (fold_left seen_after trees seen) (subrecipe_roots trees ++ seen).
+  Proof.
+    induction trees as [|t0 l IH]; intros seen; simpl.
+    - intro x. tauto.
+    - intro x. rewrite (IH (seen_after seen t0) x). apply roots_cons_same_set.
+  Qed.
+
+  Lemma inv1_seen_ext seen seen' pend t : same_set seen seen' -> Inv1 seen pend t -> Inv1 seen' pend t.
+  Proof.
+    intros E I. split; try apply I.
+    - intros e He. apply E, (i1_T _ _ _ I), He.
+    - intros S HS. apply (i1_SP _ _ _ I), E, HS.
+    - intros S HS. apply (i1_NL _ _ _ I), E, HS.
+    - intros x Hx. destruct (i1_V _ _ _ I x Hx) as [H1 H2]. split; [exact H1|].
+      eapply refs_in_ext; eauto.
+  Qed.
+
+  Lemma pass1_from_inv1 : forall p blk seen pend t bs t',
+    Inv1 seen pend t -> pass1_from lower blk p t = P1Ok bs t' ->
+    exists pend' seen', incl pend pend' /\
+      (forall trees x, In trees bs -> In x trees -> In x pend') /\
+      Inv1 seen' pend' t' /\ same_set seen' (flat_map subrecipe_roots bs ++ seen) /\
+      blocks_valid_from seen bs /\
+      (forall e, In e t' -> from_old t e \/
+         (blk <= e_def_block e /\ exists trees, nth_error bs (e_def_block e - blk) = Some trees /\
+                                                 In (e_sub e) trees)%nat).
+  Proof.
+    induction p as [|b p IH]; intros blk seen pend t bs t' I H; simpl in H.
+    - inversion H; subst. exists pend, seen. simpl.
+      split; [apply incl_refl|]. split; [intros ? ? []|]. split; [exact I|].
+      split; [intro; tauto|]. split; [exact Logic.I|].
+      intros e He. left. now apply from_old_refl.
+    - destruct (compile_block lower blk b t) as [trs t1|k o|c0] eqn:E; try discriminate.
+      destruct (pass1_from lower (S blk) p t1) as [bs2 t2|k bl o|c0] eqn:E2; try discriminate.
+      inversion H; subst.
+      destruct (compile_block_inv1 _ _ _ _ _ _ _ I E) as (p1 & Hi1 & Hn1 & I1 & Hbv & Ho1).
+      apply (inv1_seen_ext _ _ _ _ (fold_seen_after_set trs seen)) in I1.
+      destruct (IH _ _ _ _ _ _ I1 E2) as (p2 & s2 & Hi2 & Hn2 & I2 & Hs2 & Hbsv & Ho2).
+      exists p2, s2. split; [eapply incl_tran; eauto|]. split; [|split; [exact I2|split; [|split]]].
+      + intros trees x [<-|Ht] Hx; [auto | eauto].
+      + intro x. rewrite (Hs2 x). simpl. rewrite !in_app_iff. tauto.
+      + simpl. auto.
+      + intros e He. destruct (Ho2 e He) as [Hold|(Hle & trees & Hnth & Hin)].
+        * destruct Hold as (e1 & He1 & Hs & Hb).
+          destruct (Ho1 e1 He1) as [(e0 & He0 & Hs0 & Hb0)|[Hb1 Hs1]].
+          -- left. exists e0. split; [exact He0|]. split; congruence.
+          -- right. rewrite Hb, Hb1. split; [lia|]. exists trs. rewrite Nat.sub_diag. simpl.
+             split; [reflexivity | congruence].
+        * right. split; [lia|]. exists trees. split; [|exact Hin].
+          replace (e_def_block e - blk)%nat with (S (e_def_block e - S blk)) by lia. exact Hnth.
+  Qed.
+
+  Lemma in_roots_flat bs x : In x (concat bs) -> is_subrecipe x = true ->
+    In x (flat_map subrecipe_roots bs).
+  Proof.
+    intros Hx Hs. apply in_concat in Hx. destruct Hx as (trees & Ht & Hx).
+    apply in_flat_map. exists trees. split; [exact Ht|]. apply filter_In. auto.
+  Qed.
+
+  Theorem pass1_inv2 p bs t : pass1 lower p = P1Ok bs t -> Inv2 lower 0 bs t.
+  Proof.
+    intro H. unfold pass1 in H.
+    destruct (pass1_from_inv1 _ _ _ _ _ _ _ inv1_init H)
+      as (pend & seen & _ & Hpend & I & Hseen & Hv & Horig).
+    split.
+    - apply I.
+    - intros j e Hj _. apply (i1_KN _ _ _ I). eapply nth_error_In; eauto.
+    - intros j e Hj _. destruct (Horig e (nth_error_In _ _ Hj)) as [(e0 & [] & _)|(_ & trees & Hn & Hin)].
+      rewrite Nat.sub_0_r in Hn. eauto.
+    - intros j e Hj _. apply (i1_C _ _ _ I). eapply nth_error_In; eauto.
+    - intros j e Hj _ x a Hx Hin. apply in_concat in Hx. destruct Hx as (trees & Ht & Hx).
+      eapply (i1_U _ _ _ I); eauto using nth_error_In.
+    - intros x S Hx Hc HS.
+      assert (S = x /\ In x seen) as [-> Hxs].
+      { inversion Hc as [|b ns sh Hcb]; subst.
+        - split; [reflexivity|]. apply Hseen. rewrite app_nil_r. now apply in_roots_flat.
+        - assert (Hin : In (SubRecipe b ns sh) seen).
+          { apply Hseen. rewrite app_nil_r. now apply in_roots_flat. }
+          destruct (i1_SP _ _ _ I _ Hin) as (_ & b' & ns' & sh' & Heq & Hb). inversion Heq; subst b' ns' sh'.
+          exfalso. inversion Hcb; subst; simpl in *; congruence. }
+      intros k Hk. destruct (i1_NL _ _ _ I x Hxs k Hk) as (e & He & Hkey & Hix & Hsub).
+      apply In_nth_error in He. destruct He as (j & Hj). exists j, e. auto.
+    - apply strictly_valid_iff_rec. exact Hv.
+  Qed.
+
+  Lemma pass1_no_crash p c : pass1 lower p <> P1Crash c.
+  Proof. apply pass1_from_no_crash. Qed.
 End P1.
